@@ -3,6 +3,7 @@
 mod codec;
 mod gen_codec;
 mod rng;
+mod sess;
 mod tok;
 
 use std::io::{BufRead, Write};
@@ -21,6 +22,7 @@ pub fn run_line(line: &str) -> String {
     let mut t = tok::Toks::new(&toks[1..]);
     let result = std::panic::catch_unwind(std::panic::AssertUnwindSafe(|| match cmd {
         1..=9 => codec::exec(cmd, &mut t),
+        10 => sess::run(&mut t),
         _ => Err(tok::Bad("cmd")),
     }));
     match result {
